@@ -4,7 +4,7 @@ from harness.props import c01 as B
 
 ID = "C16"
 ENTRY = "SearchArray.termfreqs(q, min_posn=a, max_posn=b)"
-LEVEL = "other"
+LEVEL = "proof"
 RULE = ("corpora whose documents span at least 6 position words (108+ tokens) plus short ones; all aligned (min, max) "
         "pairs over words 0..8 incl. one-sided and empty-result ranges, unaligned bounds (must raise ValueError); terms "
         "and distinct-term phrases incl. occurrences straddling a bound. Non-trivial = the restricted answer differs "
